@@ -7,7 +7,8 @@ A small composition used for the *partial* progress results of C16 (it is not re
 closed-loop correspondence compares the sender and the sink separately).  Each path is a FIFO list of packets in
 flight; a path may lose any packet in flight (`dropData i`, `dropAck i` - "drops by transmission index" without
 the bookkeeping of indices) and delivers its head (`deliver`, `ackArrive`).  Delays are the interleaving with the
-sender's `tick`.  `issued` is a ghost list of the sequence numbers sent as new segments so far.
+sender's `tick`.  `issued` is a ghost list of the sequence numbers sent as new segments so far.  `ackArriveAt i` is the
+arrival of *any* ACK in flight (a return path that reorders).
 -/
 
 structure Loop (α : Type) where
@@ -61,6 +62,17 @@ def step (l : Loop α) : LAct α → Option (Loop α)
       | _ => none
   | .dropData i => if i < l.data.length then some { l with data := l.data.eraseIdx i } else none
   | .dropAck i => if i < l.acks.length then some { l with acks := l.acks.eraseIdx i } else none
+
+/-- a return path that does **not** keep order: *any* ACK in flight (the `i`-th) reaches the sender next.  `ackArrive` is
+`ackArriveAt 0`.  Used for the safety results about reordering return paths (`Lemmas/TcpReorder.lean`,
+`C16.reordering_return_path_safe`); the liveness development stays on the FIFO actions of `step`. -/
+def ackArriveAt (l : Loop α) (i : Nat) : Option (Loop α) :=
+  match l.acks[i]? with
+  | none => none
+  | some a =>
+    match l.snd.step (.ack a) with
+    | .ok s' outs => some { l with snd := s', acks := l.acks.eraseIdx i, data := l.data ++ outs }
+    | _ => none
 
 /-- sender freshly constructed, nothing in flight, nothing received -/
 def init (s : Sender α) : Loop α := { snd := s, sink := [], data := [], acks := [], issued := [] }
